@@ -122,7 +122,7 @@ def stand_in(props, name, title, function, bound_text, primary=True):
             rec["status"] = "sat"
             f = new[0]
             rec["replay"] = {"inputs": f.get("input"), "observed": f.get("observed"), "expected": f.get("expected"),
-                             "what": f.get("what"), "backend": f.get("backend"), "agrees": False}
+                             "what": f.get("what"), "backend": f.get("backend"), "agrees": False, "bounded_check": name}
         else:
             rec["status"] = "unsat"
         return [rec]
@@ -185,3 +185,11 @@ stand_in(("C11", "C17"), "modifiers", "with_* / origin / relative change only th
          "yarl._url:URL.with_host",
          "3 schemes x 4 userinfos x 5 hosts x 5 ports x 4 paths x 4 query/fragment endings (4800 URLs) x 21 modifier calls", primary=False)
 NONTRIVIAL_RULES["modifiers"] = "every URL of the corpus once per back end, each with 21 modifier calls; non-trivial when it has userinfo or an explicit port"
+
+
+def replay_bounded(name, inputs, tier="quick"):
+    """re-run one stand-in on the current tree and say whether the recorded input still fails"""
+    res = _run_workers(name, tier)
+    hits = [dict(f, backend=r.get("backend")) for r in res for f in r.get("failures", []) if f.get("input") == inputs]
+    errs = [r["error"] for r in res if "error" in r]
+    return hits, errs
